@@ -118,7 +118,8 @@ PROPS["C20"] = {
     "title": "Prometheus metrics equal the sums over observed results",
     "units": [{"name": "prom", "pkg": "prom", "run": "^TestC20", "scale_thorough": 4},
               {"name": "pump", "pkg": "main", "run": "^TestC20", "shards_quick": 1, "shards_thorough": 4},
-              {"name": "prom-race", "pkg": "prom", "run": "^TestC20", "race": True, "shards_quick": 1, "shards_thorough": 4}],
+              {"name": "prom-race", "pkg": "prom", "run": "^TestC20", "race": True, "shards_quick": 1, "shards_thorough": 4},
+              {"name": "aging", "pkg": "promsync", "go": "go1.26.8", "run": "^TestC20Aging", "shards_quick": 2, "shards_thorough": 8}],
     "rule": "rapid draws histories of 0..400 results (thorough also 2000..1e4) over 1..4 methods x 1..4 URLs x 1..6 status "
             "codes with error texts from a pool (also on success codes), byte counts < 2^32, latencies exactly on / 1 ns "
             "around the exported bucket bounds; observed sequentially or by 2..16 goroutines (also under -race). "
@@ -306,7 +307,7 @@ PROPS["C02"] = {
 
 PROPS["C03"] = {
     "title": "Requests in flight never exceed max-workers and free capacity is used",
-    "units": [{"name": "bubble", "pkg": "libsync", "go": "go1.26.8", "run": "^TestC02(Random|Exhaustive)", "env": {"VERIF_AS": "C03"}, "scale_thorough": 6}],
+    "units": [{"name": "bubble", "pkg": "libsync", "go": "go1.26.8", "run": "^TestC02(Random|Exhaustive|TwoAttacks)", "env": {"VERIF_AS": "C03"}, "scale_thorough": 6}],
     "rule": "Same bubble histories as C02 (exhaustive up to length 4/6/7 over workers 0..3 x max-workers 1..3, random "
             "up to 200 actions with max-workers up to 64, any initial worker count incl. 0 and > max). Non-trivial = a "
             "tick while all max workers were busy (pending hit) or a stop cause with hits in flight; distinct = (config, "
@@ -328,6 +329,7 @@ PROPS["C04"] = {
     "title": "The attack loop obeys its pacer and its duration",
     "units": [{"name": "virtual", "pkg": "libsync", "go": "go1.26.8", "run": "^TestC04", "scale_thorough": 12},
               {"name": "realclock", "pkg": "lib", "run": "^TestC04(Forever|TinyDuration)", "shards_quick": 2, "shards_thorough": 8},
+              {"name": "stopwait", "pkg": "libsync", "go": "go1.26.8", "run": "^TestC02(Random|TwoAttacks)", "env": {"VERIF_AS": "C04"}, "shards_quick": 2, "shards_thorough": 8},
               {"name": "cli", "pkg": "main", "run": "^TestC04", "shards_quick": 2, "shards_thorough": 8}],
     "rule": "rapid draws adversarial scripted pacers (1..120 answers: negative, zero, ns, ms, seconds..minutes, around and "
             "beyond the duration; then stop), durations (none or 1 ns..10 min), (workers, max-workers) in 0..8 x 1..8, "
@@ -398,7 +400,8 @@ PROPS["C15"] = {
 PROPS["C05"] = {
     "title": "Sequence order and timestamp order of results agree",
     "units": [{"name": "plain", "pkg": "lib", "run": "^TestC05", "shards_quick": 4, "shards_thorough": 8, "timeout_thorough": 3000},
-              {"name": "race", "pkg": "lib", "run": "^TestC05", "race": True, "shards_quick": 1, "shards_thorough": 4, "env": {"VERIF_SCALE": "0.5"}}],
+              {"name": "race", "pkg": "lib", "run": "^TestC05", "race": True, "shards_quick": 1, "shards_thorough": 4, "env": {"VERIF_SCALE": "0.5"}},
+              {"name": "twoattacks", "pkg": "libsync", "go": "go1.26.8", "run": "^TestC02TwoAttacks", "env": {"VERIF_AS": "C05"}, "shards_quick": 2, "shards_thorough": 8}],
     "rule": "rapid draws stress configurations: 1..512 workers (= max-workers) at unlimited rate, 2000..200000 hits per "
             "attack, fake transport that returns at once / yields / sleeps 0..120 us / hangs every N-th request until a "
             "5..25 ms client timeout cancels it, static or yielding targeter, GOMAXPROCS 2..16; each attack runs on the "
@@ -524,4 +527,21 @@ _ADDED2 = {'C02': " Rounds 4-5: actions 'burst' (several pacer releases back to 
     'C18': ' Rounds 4-5: C18.refresh with the host left idle for twelve refresh intervals; C18.localaddr: LocalAddr/KeepAlive(false) on the loopback interface (127.0.0.1 and ::1 servers on one port must both see connections).',
     'C19': " Rounds 4-5: rate periods from the duration grammar (fractions without integer part etc.), -proxy-header next to -header; C19.resolverscmd: a loopback DNS server is the only one that knows the target's name, for every -dns-ttl.", 'C20': ' Rounds 4-5: scrapes through the HTTP handler between observations; 50 000..200 000 results waiting in the channel when the pump starts.'}
 for _k, _v in _ADDED2.items():
+    PROPS[_k]["rule"] += _v
+
+_ADDED3 = {'C01': ' Round 6: linear ramps starting at up to 2e7 hits/s with slopes down to 1e-7.',
+    'C02': ' Round 6: targeter failures of nine kinds, responses arriving in two parts, Stop during a pacer wait; twoattacks with a gated transport and a late second attack; dialpath with a server dropping kept-alive requests.',
+    'C03': " Round 6: 'completehead' (no result on offer before the body has been read to its end), twoattacks (per-attack in-flight bound).", 'C04': " Round 6: C04 runs the C02 histories and twoattacks for its own clauses ('waitstop': Stop during an hour's wait releases nothing; per-attack pacer arguments).", 'C05': ' Round 6: followed redirects against the real transport (latency >= server time of all hops); twoattacks (per-attack seq/timestamp order).',
+    'C08': ' Round 6: C08.interleaved (two streams open at once), long single header values in the size ladder.',
+    'C09': ' Round 6: a longer output of an earlier run at the output path, 16 MiB rung in the quick tier.',
+    'C11': " Round 6: arrival orders 'alternate'/'zigzag' in large cases, one HDR reporter rendered at every intermediate Close.", 'C12': ' Round 6: evenly spaced bounds, repeated -buckets flags.',
+    'C13': ' Round 6: inputs read through a named pipe, seekable inputs behind a consumed prefix.',
+    'C14': ' Round 6: targets sharing one rewritten @file, one Target variable reused for every draw (http format).',
+    'C15': ' Round 6: sources returning the last chunk with io.EOF, one Target variable per goroutine with copies kept.',
+    'C16': ' Round 6: other white space after the method; C16.commentruns: millions of comment lines under a 48 MB goroutine stack limit.',
+    'C17': ' Round 6: series of more than 2^20 points.',
+    'C18': ' Round 6: C18.sharedoption (one ConnectTo value, several attackers), C18.refresh with a name that stops resolving.',
+    'C19': ' Round 6: -connect-to with -keepalive=false end to end, zero-padded and prefixed rate numerals.',
+    'C20': ' Round 6: C20.aging (hours of virtual time between batches, go1.26.8 bubble), thousands of distinct label sets.'}
+for _k, _v in _ADDED3.items():
     PROPS[_k]["rule"] += _v
